@@ -3,7 +3,11 @@ package main
 import (
 	"fmt"
 	"go/ast"
+	"go/parser"
+	"go/printer"
 	"go/token"
+	"path/filepath"
+	"sort"
 	"strings"
 )
 
@@ -185,6 +189,218 @@ func genStopProto() {
 	}
 	fmt.Fprintf(&sb, "/-- protocol operations of `stopAllTasks` in source order (modules/modules.go). -/\ndef stopSeq : List String :=\n  %s\n\n", lst(stopSeq))
 	fmt.Fprintf(&sb, "/-- protocol operations of `checkIfStopComplete` in source order. -/\ndef checkSeq : List String :=\n  %s\n\n", lst(checkSeq))
+
+	// ---- start(): the locked section up to the goroutine, statement by statement (fail closed), and the status
+	// writes of its goroutine by branch; prep(): its status writes.
+	isHook := func(st ast.Stmt) bool {
+		es, ok := st.(*ast.ExprStmt)
+		if !ok {
+			return false
+		}
+		ce, ok := es.X.(*ast.CallExpr)
+		return ok && strings.HasPrefix(exprString(fset2, ce.Fun), "verif")
+	}
+	noHooks := func(l []ast.Stmt) []ast.Stmt {
+		var out []ast.Stmt
+		for _, st := range l {
+			if !isHook(st) {
+				out = append(out, st)
+			}
+		}
+		return out
+	}
+	squash := func(x string) string { return strings.Join(strings.Fields(x), " ") }
+	stmtString := func(st ast.Stmt) string {
+		var b strings.Builder
+		if err := printer.Fprint(&b, fset2, st); err != nil {
+			die("print stmt: %v", err)
+		}
+		return squash(b.String())
+	}
+	startFd := findFunc(f2, "start", "Module")
+	if startFd == nil {
+		die("stopproto: start not found")
+	}
+	var startSeq []string
+	sawGo := false
+	for _, st := range noHooks(startFd.Body.List) {
+		if sawGo {
+			die("stopproto: start: statement after the goroutine: %s", stmtString(st))
+		}
+		switch x := st.(type) {
+		case *ast.GoStmt:
+			sawGo = true
+			startSeq = append(startSeq, "go")
+		case *ast.IfStmt:
+			cond := exprString(fset2, x.Cond)
+			if x.Init != nil || x.Else != nil {
+				die("stopproto: start: unrecognised if shape: %s", stmtString(st))
+			}
+			body := noHooks(x.Body.List)
+			switch {
+			case cond == "m.status != StatusOffline":
+				if len(body) == 0 {
+					die("stopproto: start: empty status guard")
+				}
+				if _, ok := body[len(body)-1].(*ast.ReturnStmt); !ok {
+					die("stopproto: start: the status guard does not return")
+				}
+				startSeq = append(startSeq, "if "+cond+" { return }")
+			default:
+				parts := make([]string, len(body))
+				for i, b := range body {
+					parts[i] = stmtString(b)
+				}
+				startSeq = append(startSeq, "if "+cond+" { "+strings.Join(parts, "; ")+" }")
+			}
+		default:
+			startSeq = append(startSeq, stmtString(st))
+		}
+	}
+	if !sawGo {
+		die("stopproto: start: no goroutine found")
+	}
+	fmt.Fprintf(&sb, "/-- the statements of `start()` up to its goroutine, in source order (hook lines skipped). -/\ndef startSeq : List String :=\n  %s\n\n", lst(startSeq))
+
+	// status writes / start-complete close inside a function's goroutine, tagged with the branch of `if err != nil`
+	branchWrites := func(fd *ast.FuncDecl) []string {
+		var out []string
+		var walk func(n ast.Node, tag string)
+		walk = func(n ast.Node, tag string) {
+			ast.Inspect(n, func(c ast.Node) bool {
+				switch x := c.(type) {
+				case *ast.IfStmt:
+					if exprString(fset2, x.Cond) == "err != nil" && x.Init == nil {
+						walk(x.Body, tag+"err:")
+						if x.Else != nil {
+							walk(x.Else, tag+"ok:")
+						}
+						return false
+					}
+				case *ast.AssignStmt:
+					if len(x.Lhs) == 1 && exprString(fset2, x.Lhs[0]) == "m.status" {
+						out = append(out, tag+"status="+exprString(fset2, x.Rhs[0]))
+					}
+					for _, l := range x.Lhs {
+						if ls := exprString(fset2, l); ls == "m.Ctx" || ls == "m.cancelCtx" || ls == "m.stopFlag" {
+							out = append(out, tag+"write:"+ls)
+						}
+					}
+				case *ast.CallExpr:
+					switch full := squash(exprString(fset2, x)); full {
+					case "close(m.startComplete)", "m.cancelCtx()", "m.stopFlag.Set()", "m.stopFlag.UnSet()":
+						out = append(out, tag+full)
+					}
+				}
+				return true
+			})
+		}
+		for _, st := range fd.Body.List {
+			if g, ok := st.(*ast.GoStmt); ok {
+				walk(g.Call, "")
+			}
+		}
+		return out
+	}
+	fmt.Fprintf(&sb, "/-- what the goroutine of `start()` does to status / context / stop flag, by branch of `if err != nil`. -/\ndef startResultSeq : List String :=\n  %s\n\n", lst(branchWrites(startFd)))
+	prepFd := findFunc(f2, "prep", "Module")
+	if prepFd == nil {
+		die("stopproto: prep not found")
+	}
+	var prepSeq []string
+	ast.Inspect(prepFd.Body, func(c ast.Node) bool {
+		switch x := c.(type) {
+		case *ast.GoStmt:
+			if len(prepSeq) > 0 && !strings.HasPrefix(prepSeq[len(prepSeq)-1], "status=StatusPreparing") {
+				return false // the reporting goroutine of the "already prepped" branch
+			}
+		case *ast.AssignStmt:
+			for _, l := range x.Lhs {
+				switch ls := exprString(fset2, l); ls {
+				case "m.status":
+					prepSeq = append(prepSeq, "status="+exprString(fset2, x.Rhs[0]))
+				case "m.Ctx", "m.cancelCtx", "m.stopFlag":
+					prepSeq = append(prepSeq, "write:"+ls)
+				}
+			}
+		case *ast.CallExpr:
+			switch full := squash(exprString(fset2, x)); full {
+			case "m.cancelCtx()", "m.stopFlag.Set()", "m.stopFlag.UnSet()":
+				prepSeq = append(prepSeq, full)
+			}
+		}
+		return true
+	})
+	fmt.Fprintf(&sb, "/-- what `prep()` does to status / context / stop flag, in source order. -/\ndef prepSeq : List String :=\n  %s\n\n", lst(prepSeq))
+
+	// ---- who replaces / cancels a module context, package-wide (every non-test file of package modules)
+	var ctxWriters, ctxCancellers []string
+	files, err := filepath.Glob(filepath.Join(repo, "modules", "*.go"))
+	if err != nil || len(files) == 0 {
+		die("stopproto: cannot list modules/*.go: %v", err)
+	}
+	sort.Strings(files)
+	for _, fn := range files {
+		if strings.HasSuffix(fn, "_test.go") {
+			continue
+		}
+		fs := token.NewFileSet()
+		af, err := parser.ParseFile(fs, fn, nil, 0)
+		if err != nil {
+			die("stopproto: parse %s: %v", fn, err)
+		}
+		for _, d := range af.Decls {
+			fd, ok := d.(*ast.FuncDecl)
+			if !ok || fd.Body == nil {
+				continue
+			}
+			// the Module-typed names in scope that we can tell syntactically: a *Module receiver
+			recv := ""
+			if fd.Recv != nil && len(fd.Recv.List) == 1 && len(fd.Recv.List[0].Names) == 1 {
+				t := fd.Recv.List[0].Type
+				if st, ok := t.(*ast.StarExpr); ok {
+					t = st.X
+				}
+				if id, ok := t.(*ast.Ident); ok && id.Name == "Module" {
+					recv = fd.Recv.List[0].Names[0].Name
+				}
+			}
+			ast.Inspect(fd.Body, func(c ast.Node) bool {
+				switch x := c.(type) {
+				case *ast.AssignStmt:
+					for _, l := range x.Lhs {
+						if se, ok := l.(*ast.SelectorExpr); ok && se.Sel.Name == "Ctx" {
+							ctxWriters = append(ctxWriters, fd.Name.Name+":"+exprString(fs, se))
+						}
+					}
+				case *ast.IncDecStmt, *ast.UnaryExpr:
+					// &x.Ctx would let somebody else write it
+					if ue, ok := c.(*ast.UnaryExpr); ok && ue.Op == token.AND {
+						if se, ok := ue.X.(*ast.SelectorExpr); ok && (se.Sel.Name == "Ctx" || se.Sel.Name == "cancelCtx") {
+							ctxWriters = append(ctxWriters, fd.Name.Name+":&"+exprString(fs, se))
+						}
+					}
+				case *ast.KeyValueExpr:
+					if id, ok := x.Key.(*ast.Ident); ok && id.Name == "Ctx" {
+						ctxWriters = append(ctxWriters, fd.Name.Name+":literal")
+					}
+				case *ast.CallExpr:
+					if se, ok := x.Fun.(*ast.SelectorExpr); ok && se.Sel.Name == "cancelCtx" {
+						who := exprString(fs, se.X)
+						// `t.cancelCtx()` / `newTask.cancelCtx()` cancel a task's own child context (type Task)
+						if recv != "" && who == recv {
+							ctxCancellers = append(ctxCancellers, fd.Name.Name)
+						} else if strings.Contains(who, "module") || strings.Contains(who, "Module") {
+							ctxCancellers = append(ctxCancellers, fd.Name.Name+":"+who)
+						}
+					}
+				}
+				return true
+			})
+		}
+	}
+	fmt.Fprintf(&sb, "/-- every assignment to a field `Ctx` in package modules (function:target), files in name order. -/\ndef ctxWriters : List String :=\n  %s\n\n", lst(ctxWriters))
+	fmt.Fprintf(&sb, "/-- every function of package modules that calls the module's `cancelCtx`. -/\ndef ctxCancellers : List String :=\n  %s\n\n", lst(ctxCancellers))
 	sb.WriteString("end PB.Gen.StopProto\n")
 	write("StopProto.lean", sb.String())
 }
